@@ -1,6 +1,7 @@
 //! Shared machinery of the /verif harness: evidence files, known findings,
 //! violation reporting, small combinatorics helpers.
 
+pub mod celldrv;
 pub mod combi;
 pub mod ctors;
 pub mod pbwire;
